@@ -180,6 +180,8 @@ impl FeatureState for TravelLimitState {
                         .iter()
                         // consider only jobs with time windows
                         .filter_map(|time_span| time_span.as_time_window())
+                        // NOTE: unbounded time window cannot be used to derive departure time
+                        .filter(|tw| tw.end < Float::MAX)
                         .map(move |tw| (tw, location))
                 })
             })
